@@ -9,7 +9,7 @@
 (* par: [name -> hex-float string], args = <<scalars, direction index, #index args>>,  *)
 (* cb = <<>> or <<kind, c0, c1, c2>> (the caller-supplied function, by name).          *)
 (***************************************************************************************)
-EXTENDS MasaPDE, Json, IOUtils
+EXTENDS MasaPDE, MasaClosed, Json, IOUtils
 
 Has(par, k) == k \in DOMAIN par
 PN(par, k)  == NFromStr(par[k])
@@ -42,6 +42,22 @@ VV(par, C)  == RoyField(par, "v",   "cos", "sin", "sin", "sin", C)
 WW(par, C)  == RoyField(par, "w",   "sin", "sin", "cos", "cos", C)
 PP(par, C)  == RoyField(par, "p",   "cos", "sin", "cos", "cos", C)
 CartFields(par, C) == [rho |-> Rho(par, C), u |-> <<UU(par, C), VV(par, C), WW(par, C)>>, p |-> PP(par, C)]
+
+Undefined == <<>>
+NotANumber == <<"nan">>      \* the documented error value of the power-law gradients
+\* which equation a source-term name denotes: index 0 mass, 1..3 momentum, 4 energy
+EqOf(fn) == CASE fn = "source_rho" -> 0
+              [] fn \in {"source_rho_u", "source_u"} -> 1
+              [] fn \in {"source_rho_v", "source_v"} -> 2
+              [] fn \in {"source_rho_w", "source_w"} -> 3
+              [] fn \in {"source_rho_e", "source_e"} -> 4
+              [] OTHER -> 9
+FieldOf(F, fn) == CASE fn = "exact_rho" -> F.rho [] fn = "exact_u" -> F.u[1] [] fn = "exact_v" -> F.u[2]
+                    [] fn = "exact_w" -> F.u[3] [] fn = "exact_p" -> F.p
+GradFieldOf(F, fn) == CASE fn = "grad_rho" -> F.rho [] fn = "grad_u" -> F.u[1] [] fn = "grad_v" -> F.u[2]
+                        [] fn = "grad_w" -> F.u[3] [] fn = "grad_p" -> F.p
+
+\* the expected value: a number, or Undefined when the oracle does not cover this evaluator
 
 \* ------------------------------------------------------------------ heat (heat.page eq. manufactured01)
 HeatArg(par, ks, S, kt, T) == JAdd(JScale(P0(par, ks), S), JScale(P0(par, kt), T))
@@ -92,6 +108,206 @@ BurgersVF(par, C, withT) ==
   LET s == RoyField([k \in DOMAIN par \ {"v_t"} |-> par[k]], "v", "cos", "sin", "sin", "sin", C)
   IN  IF withT THEN JAdd(s, RoyTerm(par, "v", "t", "sin", C.t, PN(par, "L"))) ELSE s
 
+\* ------------------------------------------------------------------ power-law solution (nsctpl_fwd.hpp)
+\* one term a cos(b 2 pi s / L + c): b, c, L numbers; S the coordinate jet
+PLCos(b, c, L, S) == JCos(JAdd(JScale(NDiv(NMul(b, NMul(N2, NPi)), L), S), JConst(c)))
+PLField(par, f, C) ==
+  LET q(pre, suf) == PN(par, pre \o f \o suf)
+      Lx == PN(par, "Lx") Ly == PN(par, "Ly") Lz == PN(par, "Lz")
+      tm(suf) == JCos(JAdd(JScale(q("f_", suf), C.t), JConst(q("g_", suf))))
+      one(suf, L, S) == JScale(q("a_", suf), JMul(PLCos(q("b_", suf), q("c_", suf), L, S), tm(suf)))
+      two(suf, L1, S1, L2, S2) ==
+         JScale(q("a_", suf), JMul(JMul(PLCos(q("b_", suf), q("c_", suf), L1, S1), PLCos(q("d_", suf), q("e_", suf), L2, S2)), tm(suf)))
+  IN  JAdd(JAdd(JAdd(JScale(q("a_", "0"), tm("0")), one("x", Lx, C.x)),
+                JAdd(two("xy", Lx, C.x, Ly, C.y), two("xz", Lx, C.x, Lz, C.z))),
+           JAdd(JAdd(one("y", Ly, C.y), two("yz", Ly, C.y, Lz, C.z)), one("z", Lz, C.z)))
+
+\* ------------------------------------------------------------------ Spalart-Allmaras solutions (C05)
+\* rans_sa: fully developed channel, wall units; eta = variable 1.  Fields as constructed by the class:
+\* u = a1 eta (1 - eta/2), nu_sa = b1 eta - (etam+1) b1 eta^2/(2 etam) + b1 eta^3/(3 etam), a1 = 2, b1 = 1, etam = 3/5
+RansU(E)  == JScale(N2, JMul(E, JSub(JConst(N1), JScale(Half, E))))
+RansNu(E) == LET etam == NFromRat(3, 5) IN
+  JAdd(JSub(E, JScale(NDiv(NAdd(etam, N1), NMul(N2, etam)), JSq(E))), JScale(NDiv(N1, NMul(NFromInt(3), etam)), JMul(E, JSq(E))))
+RansSA(par, fn, E) ==
+  LET u == RansU(E)  nu == RansNu(E)
+      re == PN(par, "re_tau")  kap == PN(par, "kappa")  sig == PN(par, "sigma")
+      cb1 == PN(par, "cb1") cb2 == PN(par, "cb2")
+      visc == NDiv(N1, re)
+      chi == JScale(re, nu)
+      fv1 == SAfv1(chi, PN(par, "cv1"))
+      nut == JMul(nu, fv1)
+      eta == JV(E)
+      d2  == NMul(NSq(kap), NSq(eta))
+      Omega == JG(u, 1)
+      Sbar == NDiv(NMul(JV(nu), SAfv2N(JV(chi), JV(fv1))), d2)
+      St  == SAStilde(Omega, Sbar, PN(par, "cv2"), PN(par, "cv3"))
+      r0  == NDiv(JV(nu), NMul(St, d2))
+      r   == IF NLt(NFromInt(10), r0) THEN NFromInt(10) ELSE r0
+      prod == NMul(cb1, NMul(St, JV(nu)))
+      dest == NMul(NMul(SAcw1(cb1, cb2, kap, sig), SAfw(r, PN(par, "cw2"), PN(par, "cw3"))), NSq(NDiv(JV(nu), eta)))
+      trans == NDiv(NAdd(JG(JMul(JAdd(JConst(visc), nu), JD(nu, 1)), 1), NMul(cb2, NSq(JG(nu, 1)))), sig)
+  IN  CASE fn = "exact_u" -> JV(u) [] fn = "exact_v" -> JV(nu)
+        \* d/deta [ (1/Re_tau + nu_t) du/deta ] + 1
+        [] fn = "source_u" -> NAdd(JG(JMul(JAdd(JConst(visc), nut), JD(u, 1)), 1), N1)
+        [] fn = "source_v" -> NAdd(NSub(prod, dest), trans)
+        [] OTHER -> Undefined
+
+\* fans_sa_transient_free_shear: Roy fields plus nu_sa = nu_sa_0 + nu_sa_x cos + nu_sa_y cos + nu_sa_t cos
+FreeShearNu(par, C) ==
+  LET L == PN(par, "L")
+      tm(amp, fr, V) == JScale(PN(par, amp), JCos(JScale(NDiv(NMul(PN(par, fr), NPi), L), V)))
+  IN  JAdd(JAdd(JConst(PN(par, "nu_sa_0")), tm("nu_sa_x", "a_nusax", C.x)), JAdd(tm("nu_sa_y", "a_nusay", C.y), tm("nu_sa_t", "a_nusat", C.t)))
+\* effective transport coefficients of the Favre-averaged equations closed with SA
+\* frozen: treat f_v1 as a constant when differentiating the eddy viscosity (the recorded variant of the
+\* known finding on the free-shear momentum/energy sources; the property demands frozen = FALSE)
+FansClosure(par, F, nu, frozen) ==
+  LET mu  == JConst(PN(par, "mu"))
+      rn  == JMul(F.rho, nu)
+      fv1 == SAfv1(JDiv(rn, mu), PN(par, "c_v1"))
+      mut == JMul(rn, IF frozen THEN JConst(JV(fv1)) ELSE fv1)
+      cp  == NDiv(NMul(PN(par, "Gamma"), PN(par, "R")), NSub(PN(par, "Gamma"), N1))
+  IN  [mu |-> mu, mut |-> mut, mueff |-> JAdd(mu, mut),
+       kap |-> JScale(cp, JAdd(JScale(NDiv(N1, PN(par, "Pr")), mu), JScale(NDiv(N1, PN(par, "Pr_t")), mut))),
+       T |-> JDiv(F.p, JScale(PN(par, "R"), F.rho))]
+FansSource(par, fn, F, nu, production, destruction, frozen) ==
+  LET cl == FansClosure(par, F, nu, frozen)
+      eq == EqOf(fn)
+  IN  IF eq = 0 THEN EulerMass(F)
+      ELSE IF eq \in 1..2 THEN NSMom(F, cl.mueff, StokesLambda(cl.mueff), eq)
+      ELSE IF eq = 4 THEN
+             LET full == NSEnergy(F, PN(par, "Gamma"), cl.mueff, StokesLambda(cl.mueff), cl.kap, cl.T)
+                 cv   == NDiv(PN(par, "R"), NSub(PN(par, "Gamma"), N1))
+             \* recorded variant of the known finding: the unsteady term rho c_v dT/dt is absent as well
+             IN  IF frozen THEN NSub(full, NMul(NMul(JV(F.rho), cv), JG(cl.T, 4))) ELSE full
+      ELSE IF fn = "source_nu" THEN FansNuResidual(F, nu, cl.mu, PN(par, "sigma"), PN(par, "c_b2"), production, destruction)
+      ELSE Undefined
+FreeShear(par, fn, a, variant) ==
+  LET three == Len(a) > 2
+      C  == Coords(IF three THEN a ELSE a \o <<"0x0p+0">>, 2)       \* two-argument forms: t = 0
+      F  == CartFields(par, C)
+      nu == FreeShearNu(par, C)
+      Cs == Coords(a, 2)
+      noT == [k \in DOMAIN par \ {"u_t", "v_t", "p_t", "rho_t"} |-> par[k]]
+      Fs == CartFields(noT, Cs)                                         \* t-independent parts
+      Omega == NAbs(NSub(JG(F.u[1], 2), JG(F.u[2], 1)))
+  IN  CASE fn = "exact_nu" -> JV(nu)
+        [] fn \in {"exact_u", "exact_v", "exact_p", "exact_rho"} -> JV(FieldOf(Fs, fn))
+        \* free shear: production c_b1 |omega| rho nu, no wall destruction
+        [] OTHER -> FansSource(par, fn, F, nu, NMul(PN(par, "c_b1"), NMul(Omega, NMul(JV(F.rho), JV(nu)))), N0, variant)
+
+\* fans_sa_steady_wall_bounded: compressible flat-plate boundary layer built from a law-of-the-wall profile
+WallFields(par, C) ==
+  LET kap == PN(par, "kappa") g == PN(par, "Gamma") R == PN(par, "R") Tinf == PN(par, "T_inf") M == PN(par, "M_inf")
+      rT == PN(par, "r_T") p0 == PN(par, "p_0") mu == PN(par, "mu") eta1 == PN(par, "eta1") b == PN(par, "b")
+      C1    == NAdd(NNeg(NDiv(NLog(kap), kap)), PN(par, "C"))
+      uinf  == NMul(M, NSqrt(NMul(NMul(g, R), Tinf)))
+      rhoinf == NDiv(p0, NMul(R, Tinf))
+      Taw   == NMul(Tinf, NAdd(N1, NDiv(NMul(NMul(rT, NSub(g, N1)), NSq(M)), N2)))
+      rhow  == NDiv(p0, NMul(R, Taw))
+      A     == NSqrt(NSub(N1, NDiv(Tinf, Taw)))
+      Fc    == NDiv(NSub(NDiv(Taw, Tinf), N1), NSq(NAsinL(A)))
+      nuw   == NDiv(mu, rhow)
+      Rex   == JScale(NDiv(NMul(rhoinf, uinf), mu), C.x)
+      cf    == JScale(NDiv(PN(par, "C_cf"), Fc), JPow(JScale(NDiv(N1, Fc), Rex), NNeg(NFromRat(1, 7))))
+      utau  == JScale(uinf, JSqrt(JScale(Half, cf)))
+      yplus == JScale(NDiv(N1, nuw), JMul(C.y, utau))
+      one   == JConst(N1)
+      ueqp  == JAdd(JScale(NDiv(N1, kap), JLog(JAdd(one, JScale(kap, yplus)))),
+                    JScale(C1, JSub(JSub(one, JExp(JScale(NNeg(NDiv(N1, eta1)), yplus))),
+                                    JMul(JScale(NDiv(N1, eta1), yplus), JExp(JScale(NNeg(b), yplus))))))
+      ueq   == JMul(utau, ueqp)
+      U     == JScale(NDiv(uinf, A), JSin(JScale(NDiv(A, uinf), ueq)))
+      V     == JScale(NDiv(PN(par, "eta_v"), NFromInt(14)), JDiv(JMul(utau, C.y), C.x))
+      T     == JScale(Tinf, JAdd(one, JScale(NDiv(NMul(NMul(rT, NSub(g, N1)), NSq(M)), N2), JSub(one, JScale(NDiv(N1, NSq(uinf)), JSq(U))))))
+      RHO   == JDiv(JConst(NDiv(p0, R)), T)
+      NU    == JSub(JScale(kap, JMul(utau, C.y)), JScale(PN(par, "alpha"), JSq(C.y)))
+  IN  [rho |-> RHO, u |-> <<U, V, JConst(N0)>>, p |-> JConst(p0), T |-> T, nu |-> NU]
+WallBounded(par, fn, a) ==
+  LET C  == Coords(a, 2)
+      W  == WallFields(par, C)
+      F  == [rho |-> W.rho, u |-> W.u, p |-> W.p]
+      kap == PN(par, "kappa")
+      cl == FansClosure(par, F, W.nu, FALSE)
+      chi == NDiv(NMul(JV(W.rho), JV(W.nu)), PN(par, "mu"))
+      fv1 == NDiv(JV(cl.mut), NMul(JV(W.rho), JV(W.nu)))
+      d2  == NMul(NSq(kap), NSq(JV(C.y)))                 \* (kappa d)^2, wall distance d = y
+      Omega == NAbs(NSub(JG(F.u[1], 2), JG(F.u[2], 1)))
+      Sbar == NDiv(NMul(JV(W.nu), SAfv2N(chi, fv1)), d2)
+      St  == SAStilde(Omega, Sbar, PN(par, "c_v2"), PN(par, "c_v3"))
+      r   == NDiv(JV(W.nu), NMul(St, d2))
+      cw1 == SAcw1(PN(par, "c_b1"), PN(par, "c_b2"), kap, PN(par, "sigma"))
+      prod == NMul(PN(par, "c_b1"), NMul(St, NMul(JV(W.rho), JV(W.nu))))
+      dest == NMul(NMul(cw1, SAfw(r, PN(par, "c_w2"), PN(par, "c_w3"))), NMul(JV(W.rho), NSq(NDiv(JV(W.nu), JV(C.y)))))
+  IN  CASE fn = "exact_u" -> JV(W.u[1]) [] fn = "exact_v" -> JV(W.u[2]) [] fn = "exact_t" -> JV(W.T)
+        [] fn = "exact_rho" -> JV(W.rho) [] fn = "exact_p" -> JV(W.p) [] fn = "exact_nu" -> JV(W.nu)
+        [] OTHER -> FansSource(par, fn, F, W.nu, prod, dest, FALSE)
+
+\* ------------------------------------------------------------------ reacting Euler, N / N2 (C06)
+\* cb = <<kind, c0, c1, c2>>: the caller's equilibrium-constant function, by name
+Callback(cb, T) ==
+  LET c0 == NFromStr(cb[2]) c1 == NFromStr(cb[3]) c2 == NFromStr(cb[4])
+  IN  CASE cb[1] = "arr"  -> NMul(NMul(c0, NPow(T, c1)), NExp(NNeg(NDiv(c2, T))))
+        [] cb[1] = "poly" -> NAdd(c0, NAdd(NMul(c1, T), NMul(c2, NSq(T))))
+        [] OTHER -> c0
+Chem(par, fn, a, cb) ==
+  LET C   == Coords(a, 1)
+      L   == PN(par, "L")
+      wav(amp, fr, kind) == JScale(PN(par, amp), Trig(kind, JScale(NDiv(NMul(PN(par, fr), NPi), L), C.x)))
+      rN  == JAdd(JConst(PN(par, "rho_N_0")), wav("rho_N_x", "a_rho_N_x", "sin"))
+      rN2 == JAdd(JConst(PN(par, "rho_N2_0")), wav("rho_N2_x", "a_rho_N2_x", "cos"))
+      u   == JAdd(JConst(PN(par, "u_0")), wav("u_x", "a_ux", "sin"))
+      T   == JAdd(JConst(PN(par, "T_0")), wav("T_x", "a_Tx", "cos"))
+      rho == JAdd(rN, rN2)
+      RN  == PN(par, "R_N")  RN2 == PN(par, "R_N2")
+      \* thermally perfect mixture: p = (rho_N R_N + rho_N2 R_N2) T
+      p   == JMul(JAdd(JScale(RN, rN), JScale(RN2, rN2)), T)
+      \* e_N = 3/2 R_N T + h0_N ; e_N2 = 5/2 R_N2 T + e_vib + h0_N2 ; e_vib = R_N2 theta_v / (exp(theta_v/T) - 1)
+      th  == PN(par, "theta_v_N2")
+      evib == JScale(NMul(RN2, th), JRecip(JSub(JExp(JScale(th, JRecip(T))), JConst(N1))))
+      eN  == JAdd(JScale(NMul(NFromRat(3, 2), RN), T), JConst(PN(par, "h0_N")))
+      eN2 == JAdd(JAdd(JScale(NMul(NFromRat(5, 2), RN2), T), evib), JConst(PN(par, "h0_N2")))
+      rE  == JAdd(JAdd(JMul(rN, eN), JMul(rN2, eN2)), JScale(Half, JMul(rho, JSq(u))))
+      \* dissociation N2 + M <-> 2N + M, M in {N, N2}; forward rates Arrhenius, backward via K_eq(T)
+      Tn  == JV(T)
+      kf(cf, et, ea) == NMul(NMul(PN(par, cf), NPow(Tn, PN(par, et))), NExp(NNeg(NDiv(PN(par, ea), NMul(PN(par, "R"), Tn)))))
+      MN  == PN(par, "M_N")
+      cN  == NDiv(JV(rN), MN)                       \* molar concentrations
+      cN2 == NDiv(JV(rN2), NMul(N2, MN))
+      kfs == NAdd(NMul(kf("Cf1_N", "etaf1_N", "Ea_N"), cN), NMul(kf("Cf1_N2", "etaf1_N2", "Ea_N2"), cN2))
+      rate == NSub(NMul(kfs, cN2), NDiv(NMul(kfs, NSq(cN)), Callback(cb, Tn)))     \* net dissociation rate
+      wN  == NMul(NMul(N2, MN), rate)               \* mass production of N; N2 loses the same
+  IN  CASE fn = "exact_t" -> JV(T) [] fn = "exact_u" -> JV(u) [] fn = "exact_rho" -> JV(rho)
+        [] fn = "exact_rho_N" -> JV(rN) [] fn = "exact_rho_N2" -> JV(rN2)
+        [] fn = "source_rho_N"  -> NSub(JG(JMul(rN, u), 1), wN)
+        [] fn = "source_rho_N2" -> NAdd(JG(JMul(rN2, u), 1), wN)
+        [] fn = "source_rho_u"  -> NAdd(JG(JMul(rho, JSq(u)), 1), JG(p, 1))
+        [] fn = "source_rho_e"  -> JG(JMul(u, JAdd(rE, p)), 1)
+        [] OTHER -> Undefined
+
+\* ------------------------------------------------------------------ closed forms (C08)
+SodMinGap == NFromRat(1, 1000)       \* points closer than this (in x/t) to a wave front are not judged
+Sod(par, fn, a) ==
+  LET st == SodState(PN(par, "Gamma"), PN(par, "mu"), NFromStr(a[1]), NFromStr(a[2]))
+      near == \E i \in 1..4 : NLt(NAbs(NSub(st.xi, st.fronts[i])), SodMinGap)
+  IN  IF near THEN Undefined
+      ELSE IF fn = "source_rho" THEN st.rho
+      ELSE IF fn = "source_rho_u" THEN NMul(st.rho, st.u)
+      ELSE Undefined
+CpNormal(par, vec, fn, a, di) ==
+  LET data == [i \in 1..Len(vec["vec_data"]) |-> NFromStr(vec["vec_data"][i])]
+      n    == Len(data)
+      xbar == Mean(data)
+      m == PN(par, "m") sg == PN(par, "sigma") sd == PN(par, "sigma_d")
+      x == NFromStr(a[1])
+  IN  CASE fn = "prior" -> NormalPdf(x, m, NSq(sg))
+        [] fn = "posterior" -> NormalPdf(x, PostMean(n, xbar, m, sg, sd), PostVar(n, sg, sd))
+        [] fn = "loglikelyhood" -> LogLikelihood(x, n, xbar, sd)
+        [] fn = "likelyhood" -> NExp(LogLikelihood(x, n, xbar, sd))
+        [] fn = "posterior_mean" -> PostMean(n, xbar, m, sg, sd)
+        [] fn = "posterior_variance" -> PostVar(n, sg, sd)
+        [] fn = "central_moment" -> IF di \in 0..40 THEN CentralMoment(di, sg) ELSE Undefined
+        [] OTHER -> Undefined
+
 \* ------------------------------------------------------------------ dispatch
 HeatSols == {"heateq_1d_steady_const", "heateq_2d_steady_const", "heateq_3d_steady_const",
              "heateq_1d_steady_var", "heateq_2d_steady_var", "heateq_3d_steady_var",
@@ -108,20 +324,6 @@ SpaceDim(sol) ==
                 "euler_3d", "euler_transient_3d", "navierstokes_3d_compressible"} -> 3
     [] OTHER -> 2
 
-Undefined == <<>>
-\* which equation a source-term name denotes: index 0 mass, 1..3 momentum, 4 energy
-EqOf(fn) == CASE fn = "source_rho" -> 0
-              [] fn \in {"source_rho_u", "source_u"} -> 1
-              [] fn \in {"source_rho_v", "source_v"} -> 2
-              [] fn \in {"source_rho_w", "source_w"} -> 3
-              [] fn \in {"source_rho_e", "source_e"} -> 4
-              [] OTHER -> 9
-FieldOf(F, fn) == CASE fn = "exact_rho" -> F.rho [] fn = "exact_u" -> F.u[1] [] fn = "exact_v" -> F.u[2]
-                    [] fn = "exact_w" -> F.u[3] [] fn = "exact_p" -> F.p
-GradFieldOf(F, fn) == CASE fn = "grad_rho" -> F.rho [] fn = "grad_u" -> F.u[1] [] fn = "grad_v" -> F.u[2]
-                        [] fn = "grad_w" -> F.u[3] [] fn = "grad_p" -> F.p
-
-\* the expected value: a number, or Undefined when the oracle does not cover this evaluator
 \* variant: judge a known-deviating evaluator against the system it was actually derived from
 Expected(sol, par, vec, fn, sig, args, cb, variant) ==
   LET a  == args[1]
@@ -168,6 +370,34 @@ Expected(sol, par, vec, fn, sig, args, cb, variant) ==
                     ELSE IF variant THEN VarAxiNSEnergy(F, R, g, mu, JConst(P0(par, "k")), T)
                     ELSE AxiNSEnergy(F, R, g, mu, JConst(P0(par, "k")), T)
                [] OTHER -> Undefined
+    [] sol = "navierstokes_4d_compressible_powerlaw" ->
+         LET C4  == Coords(a, 3)
+             rho == PLField(par, "rho", C4)
+             T   == PLField(par, "T", C4)
+             F   == [rho |-> rho, u |-> <<PLField(par, "u", C4), PLField(par, "v", C4), PLField(par, "w", C4)>>,
+                     p |-> JScale(PN(par, "R"), JMul(rho, T))]
+             \* mu = mu_r (T/T_r)^beta, lambda = lambda_r mu/mu_r, kappa = kappa_r mu/mu_r  (C03)
+             pw  == JPow(JScale(NDiv(N1, PN(par, "T_r")), T), PN(par, "beta"))
+             mu  == JScale(PN(par, "mu_r"), pw)
+             lam == JScale(PN(par, "lambda_r"), pw)
+             kap == JScale(PN(par, "kappa_r"), pw)
+             g   == PN(par, "gamma")
+             eq  == EqOf(fn)
+             GF  == IF fn = "grad_t" THEN T ELSE GradFieldOf(F, fn)
+         IN  IF fn = "exact_t" THEN JV(T)
+             ELSE IF fn \in {"exact_rho", "exact_u", "exact_v", "exact_w", "exact_p"} THEN JV(FieldOf(F, fn))
+             ELSE IF fn \in {"grad_rho", "grad_u", "grad_v", "grad_w", "grad_p", "grad_t"} THEN
+                    IF di \in 1..3 THEN JG(GF, di) ELSE NotANumber
+             ELSE IF eq = 0 THEN EulerMass(F)
+             ELSE IF eq \in 1..3 THEN NSMom(F, mu, lam, eq)
+             ELSE IF eq = 4 THEN NSEnergy(F, g, mu, lam, kap, T)
+             ELSE Undefined
+    [] sol = "rans_sa" -> RansSA(par, fn, JVar(1, NFromStr(a[1])))
+    [] sol = "fans_sa_transient_free_shear" -> FreeShear(par, fn, a, variant)
+    [] sol = "fans_sa_steady_wall_bounded" -> WallBounded(par, fn, a)
+    [] sol = "euler_chem_1d" -> Chem(par, fn, a, cb)
+    [] sol = "sod_1d" -> IF sig = "SS" THEN Sod(par, fn, a) ELSE Undefined
+    [] sol = "cp_normal" -> IF Len(vec["vec_data"]) = 0 THEN Undefined ELSE CpNormal(par, vec, fn, IF Len(a) > 0 THEN a ELSE <<"0">>, di)
     [] sol = "laplace_2d" ->
          IF fn = "exact_phi" THEN JV(LaplacePhi(par, C))
          ELSE IF fn = "source_f" THEN Laplacian(LaplacePhi(par, C)) ELSE Undefined
@@ -182,14 +412,21 @@ Expected(sol, par, vec, fn, sig, args, cb, variant) ==
 \* known deviations for which the exact variant system is recorded in the specification
 HasVariant(sol, fn) ==
   \/ sol = "axi_cns_transient" /\ fn \in {"source_u", "source_w", "source_e"}
+  \/ sol = "fans_sa_transient_free_shear" /\ fn \in {"source_rho_u", "source_rho_v", "source_rho_e"}
   \/ sol = "axisymmetric_navierstokes_compressible" /\ fn \in {"source_rho_u", "source_rho_w"}
 
 \* tolerance exponent: |got - expected| <= 2^KBits u_p mag   (DESIGN.md section 7)
 KBits == IF "KBITS" \in DOMAIN IOEnv THEN (CHOOSE k \in 0..40 : ToString(k) = IOEnv.KBITS) ELSE 14
 
+PairKBits == KBits + 1
 \* known deviations (known_findings.json, keys <<solution, evaluator>>): not judged here
 KnownKeys == IF "KNOWN" \in DOMAIN IOEnv /\ IOEnv.KNOWN # "" THEN JsonDeserialize(IOEnv.KNOWN) ELSE <<>>
 IsKnown(sol, fn) == \E i \in 1..Len(KnownKeys) : KnownKeys[i][1] = sol /\ KnownKeys[i][2] = fn
+
+\* diagnostics (ERRSTAT=1): print the error of every judged value in units of u_p * mag, as a power of two
+ErrStat(sol, fn, p, ret, e) ==
+  IF "ERRSTAT" \in DOMAIN IOEnv /\ IOEnv.ERRSTAT = "1"
+  THEN PrintT(<<"ERRSTAT", sol, fn, p, NErrBits(NFromStr(ret), e, p)>>) ELSE TRUE
 
 \* known deviations are judged against their recorded variant (when one is recorded: the result must
 \* still match it, so only the listed deviation is tolerated); everything else against the property
@@ -197,6 +434,7 @@ OracleAccept(p, sol, par, vec, fn, sig, args, cb, ret) ==
   LET known == IsKnown(sol, fn)
       e == Expected(sol, par, vec, fn, sig, args, cb, known)
   IN  \/ Len(e) = 0
-      \/ NClose(NFromStr(ret), e, KBits, p)
+      \/ Len(e) = 1 /\ ~NIsFinite(NFromStr(ret))
+      \/ Len(e) > 1 /\ NClose(NFromStr(ret), e, KBits, p) /\ ErrStat(sol, fn, p, ret, e)
       \/ known /\ ~HasVariant(sol, fn)
 =============================================================================
